@@ -607,7 +607,8 @@ where
     R: AsyncStreamReader,
     W: AsyncSliceWriter,
 {
-    let mut reading = ResponseDecoder::new(outboard.root(), ranges, outboard.tree(), encoded);
+    let tree = outboard.tree();
+    let mut reading = ResponseDecoder::new(outboard.root(), ranges, tree, encoded);
     loop {
         let item = match reading.next().await {
             ResponseDecoderNext::Done(_reader) => break,
@@ -618,7 +619,11 @@ where
         };
         match item {
             BaoContentItem::Parent(Parent { node, pair }) => {
-                outboard.save(node, &pair).await?;
+                // a response for a partially requested chunk group also contains
+                // parents below the chunk group level, which no outboard stores
+                if tree.is_relevant_for_outboard(node) {
+                    outboard.save(node, &pair).await?;
+                }
             }
             BaoContentItem::Leaf(Leaf { offset, data }) => {
                 target.write_bytes_at(offset, data).await?;
